@@ -19,7 +19,12 @@ git -C /repo worktree add --detach "$WT" HEAD >/dev/null 2>&1 || { echo "seedwt:
 if [ "$P" != "/dev/null" ]; then
   git -C "$WT" apply "$P" || { echo "seedwt: patch does not apply"; exit 2; }
 fi
-mkdir -p "$RIG"; cp -r /verif/rig/. "$RIG"/
+mkdir -p "$RIG"
+if [ -n "${SEEDWT_HEAD:-}" ]; then   # committed rig (safe while the working tree is being edited)
+  git -C /verif archive HEAD rig | tar -x -C "$RIG" --strip-components=1
+else
+  cp -r /verif/rig/. "$RIG"/
+fi
 sed -i "s#replace compiler => /repo#replace compiler => $WT#" "$RIG/go.mod"
 QH=$(cat "$WT"/qbe/*.c "$WT"/qbe/*.h "$WT"/qbe/*/*.c "$WT"/qbe/*/*.h 2>/dev/null | md5sum | cut -c1-16)
 export CGO_CFLAGS="-O2 -g -DVERIF_QBE_SRC_HASH=$QH"
